@@ -13,6 +13,7 @@ Representations exercised (all chosen by the case, i.e. by the harness' rng):
   * error paths of evaluate_on (expected exception type is reported back).
 Everything is reported back in generator ids (ints), in the order msdm uses."""
 import os, sys
+from fractions import Fraction
 sys.path.insert(0, os.path.dirname(os.path.abspath(__file__)))
 from build import *
 
@@ -31,11 +32,21 @@ def label_map(kind, n):
     return list(range(n))
 
 
-def make_mdp(case, explicit_lists=False):
-    """QuickTabularMDP from a gen_mdp case with relabelled states/actions (same as build.build_mdp for int labels)"""
+def num(x, ints):
+    """float of an 'n/d' string; with int-typed inputs, integral values are passed as Python ints"""
+    f = Fraction(x)
+    return int(f) if (ints and f.denominator == 1) else float(f)
+
+
+def make_mdp(case, explicit_lists=False, spec=None):
+    """QuickTabularMDP from a gen_mdp case with relabelled states/actions (same as build.build_mdp for int labels).
+    With case['shared_objects'] the callbacks hand out persistent MUTABLE objects (one list per distinct action set,
+    shared by all states that have it; one distribution object per (s, a), and a single one for equal rows)."""
     from msdm.core.mdp.quickmdp import QuickTabularMDP
     from msdm.core.distributions import DictDistribution
-    m = case["mdp"]
+    m = spec or case["mdp"]
+    ints = bool(case.get("int_inputs"))
+    fl = lambda x: num(x, ints)
     lab = case.get("labels") or {}
     LS, LA = label_map(lab.get("s"), m["n"]), label_map(lab.get("a"), m["nA"])
     IS = {l: i for i, l in enumerate(LS)}
@@ -49,6 +60,12 @@ def make_mdp(case, explicit_lists=False):
         s, a, ns = map(int, k.split(","))
         rew[(s, a, ns)] = fl(r)
     actions = [tuple(LA[a] for a in acts) for acts in m["actions"]]
+    if case.get("shared_objects"):
+        pool, dpool = {}, {}
+        actions = [pool.setdefault(tuple(acts), [LA[a] for a in acts]) for acts in m["actions"]]
+        for k in list(trans):
+            key = tuple(sorted((repr(x), p) for x, p in trans[k].items()))
+            trans[k] = dpool.setdefault(key, trans[k])
     absorbing = list(m["absorbing"])
     g = fl(m["gamma"])
     if case.get("gamma_as_int") and g == int(g):
@@ -64,7 +81,28 @@ def make_mdp(case, explicit_lists=False):
     if explicit_lists:
         mdp._state_list = tuple(LS)
         mdp._action_list = tuple(LA)
+    mdp._c02_inputs = {"actions": actions, "trans": trans, "rew": rew}
     return mdp, LS, LA, IS, IA
+
+
+def snapshot(objs):
+    import copy
+    import numpy as np
+    return {k: (o.copy() if isinstance(o, np.ndarray) else copy.deepcopy(o)) for k, o in objs.items()}
+
+
+def mutated(objs, snap):
+    import numpy as np
+    bad = []
+    for k, o in objs.items():
+        b = snap[k]
+        if isinstance(o, np.ndarray):
+            same = o.shape == b.shape and o.dtype == b.dtype and np.array_equal(o, b)
+        else:
+            same = (o == b) and type(o) is type(b)
+        if not same:
+            bad.append(k)
+    return bad
 
 
 def make_policy(pol, sl, al, LS, LA, IS, IA):
@@ -86,6 +124,11 @@ def make_policy(pol, sl, al, LS, LA, IS, IA):
                 if a in pal:
                     data[i, pal.index(a)] = p
         slab, alab = [LS[s] for s in psl], [LA[a] for a in pal] + list(extra)
+        if pol.get("dtype") == "int" and ((data == 0) | (data == 1)).all():
+            data = data.astype(int)                     # deterministic policy as an integer table
+        elif pol.get("dtype") == "float32" and (data.astype(np.float32).astype(float) == data).all():
+            data = data.astype(np.float32)              # exactly representable: same numbers, other dtype
+        info["_inputs"] = {"policy_data": data, "policy_state_list": slab, "policy_action_list": alab}
         if form == "tab_lists":
             policy = TabularPolicy.from_state_action_lists(state_list=tuple(slab), action_list=tuple(alab),
                                                            data=[list(map(float, r)) for r in data])
@@ -123,6 +166,9 @@ def one(case, pl):
     res = {"state_list": sl, "action_list": al,
            "absorbing_vec": [bool(x) for x in mdp.absorbing_state_vec]}     # (touches the MDP's cached matrices first)
     policy, info = make_policy(case["policy"], sl, al, LS, LA, IS, IA)
+    caller = dict(info.pop("_inputs", {}))
+    caller.update({"mdp_" + k: v for k, v in mdp._c02_inputs.items()})
+    snap = snapshot(caller)
     res.update(info)
 
     if case.get("expect_error"):
@@ -135,15 +181,24 @@ def one(case, pl):
             res["raised"] = type(e).__name__
         return res
 
+    def extract(r, sl_k, al_k):
+        return {"V": [fj(r.state_value[LS[s]]) for s in sl_k],
+                "Q": [[fj(r.action_value[LS[s]][LA[a]]) for a in al_k] for s in sl_k],
+                "occ": [fj(r.state_occupancy[LS[s]]) for s in sl_k],
+                "initial_value": fj(r.initial_value)}
+
+    kept = {}
+
     def evaluate(pol_obj, mdp_k):
         sl_k, al_k = lists(mdp_k)
         try:
             r = pol_obj.evaluate_on(mdp_k)
-            return {"state_list": sl_k, "action_list": al_k,
-                    "V": [fj(r.state_value[LS[s]]) for s in sl_k],
-                    "Q": [[fj(r.action_value[LS[s]][LA[a]]) for a in al_k] for s in sl_k],
-                    "occ": [fj(r.state_occupancy[LS[s]]) for s in sl_k],
-                    "initial_value": fj(r.initial_value), "n_simulations": r.n_simulations}
+            out = {"state_list": sl_k, "action_list": al_k, "n_simulations": r.n_simulations}
+            out.update(extract(r, sl_k, al_k))
+            out["mutated"] = mutated(caller, snap)       # caller's objects must be left as they were
+            if not kept:
+                kept["first"] = (r, sl_k, al_k, extract(r, sl_k, al_k))
+            return out
         except BaseException as e:
             if isinstance(e, (KeyboardInterrupt, SystemExit)):
                 raise
@@ -159,8 +214,22 @@ def one(case, pl):
     for step in case.get("reuse", []):
         if step == "same":
             evals.append(evaluate(policy, mdp))
+        elif step == "fresh":
+            # the same problem and the same policy constructed again from scratch, after everything else
+            m3 = make_mdp(case, explicit_lists=case.get("explicit_lists", False))[0]
+            p3, info3 = make_policy(case["policy"], sl, al, LS, LA, IS, IA)
+            info3.pop("_inputs", None)
+            evals.append(evaluate(p3, m3))
+        elif "other_mdp" in step:
+            # the SAME policy object on a DIFFERENT problem (other numbers, possibly another size and discount)
+            m2 = make_mdp(case, spec=step["other_mdp"])[0]
+            m2._action_list = tuple(LA[x] for x in sorted(al, key=lambda x: step["akeys"][x]))
+            ev = evaluate(policy, m2)
+            ev["mdp"] = step["other_mdp"]
+            evals.append(ev)
         elif "other_policy" in step:
             p2, info2 = make_policy(step["other_policy"], sl, al, LS, LA, IS, IA)
+            info2.pop("_inputs", None)
             ev = evaluate(p2, mdp)
             ev.update(info2)
             ev["pol"] = step["other_policy"]
@@ -171,6 +240,9 @@ def one(case, pl):
             m2._action_list = tuple(LA[x] for x in sorted(al, key=lambda x: step["akeys"][x]))
             evals.append(evaluate(policy, m2))
     res["evals"] = evals
+    # the FIRST result object, re-read after all later calls: it must still say what it said
+    r1, sl1, al1, out1 = kept["first"]
+    res["first_result_changed"] = extract(r1, sl1, al1) != out1
     return res
 
 
